@@ -464,3 +464,29 @@ def invoked_delegate_contracts():
                 'len(calls) == %d' % (nconv + 2)],
             serves=('C04', 'C09'), native=False))
     return cs
+
+
+def strip_contracts():
+    """strip_hidden_parameters: the visible signature - hidden parameters
+    removed, the positions of the others closed up, order kept; on a CLONE
+    (the registered definition is not written)."""
+    cs = []
+    for sname, visible in (('hab', ['a', 'b']), ('ahb', ['a', 'b']),
+                           ('hhab', ['a', 'b']), ('ab', ['a', 'b'])):
+        sig = SIGNATURES[sname]
+        ens = ['result is not self',
+               'len(result.parameters) == %d' % len(visible),
+               'len(self.parameters) == %d' % len(sig)]
+        for i, k in enumerate(visible):
+            ens.append('result.parameters["%s"].position == %d' % (k, i))
+            ens.append('val(result.parameters["%s"].value_type) == '
+                       'val(self.parameters["%s"].value_type)' % (k, k))
+        for p in sig:
+            ens.append('self.parameters["%s"].position == %r' % (
+                p.key, p.position))
+        cs.append(Contract(
+            M + 'FunctionDefinition.strip_hidden_parameters',
+            name='specs.strip_hidden_parameters/' + sname,
+            params=dict(self=fd_factory(sig)), ensures=ens,
+            serves=('C12', 'C05'), native=False))
+    return cs
